@@ -61,7 +61,7 @@ def formula_check(res, model: Model, qual: str, ref_src: str, what: str, opaque:
 
 def _norm_effect(e, ignore_kinds, ignore_calls, ordered=False):
     if e[0] == "store":
-        _, tgt, how, val = e
+        _, tgt, how, val = e[:4]
         if "store" in ignore_kinds:
             return None
         from ..vn import as_term
